@@ -286,6 +286,7 @@ def run_config_source(cfg, source, res):
         c0 = Counter(None)
         with inject(source if source != 'sanity' else 'lua-writer', c0, writer):
             failed, info = env.run()
+        clean_bytes = open(env.dest, 'rb').read() if os.path.exists(env.dest) else None
         res.evaluations += 1
         case0 = {'cfg': list(cfg), 'source': source, 'k': 0}
         if failed:
@@ -334,6 +335,16 @@ def run_config_source(cfg, source, res):
                               case)
                 continue
             res.outcome((entry, fmt, source.split(':')[0]))
+        # history: after all those failed attempts, an unfaulted write must still give the clean result
+        env.reset()
+        failed, info = env.run()
+        res.evaluations += 1
+        after = open(env.dest, 'rb').read() if os.path.exists(env.dest) else None
+        if failed or after != clean_bytes:
+            res.violation('C11|write-after-failures|%s|%s' % (entry, fmt),
+                          '%r: after the injected failures of %s an unfaulted write %s' % (
+                              cfg, source, 'fails: %r' % (info,) if failed else 'produces a different file than before'),
+                          {'cfg': list(cfg), 'source': source, 'k': -1})
     finally:
         P8.to_file = original
         env.close()
